@@ -324,6 +324,19 @@ def interleaved_construction(ev, mods, imps, rnd, acc, forced=None):
     acc.count("rules_built_interleaved", len(cfgs))
 
 
+def other_containers(ev, mods, imps, cfg, form, acc):
+    """The same batches handed over as a tuple / a generator / a map object: if the rule gives a verdict, it is the verdict
+    (and the report) of the rule given as lists - which the monitor has just judged."""
+    HUB.case = {"kind": "rule", "mods": mods, "imps": imps, "cfg": cfg, "list_form": True}
+    base = run(mk_rule(cfg, True), ev)
+    HUB.case = {"kind": "rule", "mods": mods, "imps": imps, "cfg": cfg, "list_form": form}
+    alt = run(mk_rule(cfg, form), ev)
+    acc.evaluated(2)
+    acc.count("rules_with_batches_in_another_container")
+    if alt[0] in ("pass", "fail") and (alt[0] != base[0] or (alt[1] is not None and base[1] is not None and set(alt[1].split("\n")) != set(base[1].split("\n")))):
+        HUB.violation("C01", f"verdict:batch-as-{form}-differs-from-list", f"the same rule with its batches given as a {form} gave {alt[0]}, given as lists {base[0]}", {"as_list": base, f"as_{form}": alt})
+
+
 def dot_twin_batches(rnd, acc):
     """'anything' over two subjects whose names coincide once a dot is read as "any character" (r.a.b next to
     r.a_b.x, r.a-b.x, r.a·b.x): two different, unrelated modules - judged by the sound lower bound for batches."""
@@ -360,6 +373,8 @@ def randomised(spec, acc):
                 continue
             lf = rnd.random() < 0.5
             _eval(ev, mods, imps, cfg, acc, list_form=lf)
+            if rnd.random() < 0.08 and len(cfg["subs"]) + len(cfg["objs"]) > 2:
+                other_containers(ev, mods, imps, cfg, rnd.choice(["tuple", "generator", "map"]), acc)
             done += 1
             acc.hist("batch_size", f"{len(cfg['subs'])}x{len(cfg['objs'])}")
             if done % 997 == 1:
@@ -414,6 +429,8 @@ def floors(acc, tier):
         why.append(f"only {acc.counters['big_cases']} evaluations on big architectures (80+ modules, batches of 10+)")
     if acc.counters["rules_retargeted_after_application"] < 100:
         why.append(f"only {acc.counters['rules_retargeted_after_application']} rules built by re-targeting an applied rule prefix")
+    if acc.counters["rules_with_batches_in_another_container"] < 100:
+        why.append(f"only {acc.counters['rules_with_batches_in_another_container']} rules with batches given as tuple / generator / map")
     if acc.counters["rules_built_interleaved"] < 100:
         why.append(f"only {acc.counters['rules_built_interleaved']} rules built while other rules were under construction")
     if acc.counters["c01_judged_nested_lists"] < 100:
